@@ -1,9 +1,9 @@
 package driver
 
 import (
-	"os/exec"
 	"fmt"
 	"os"
+	"os/exec"
 	"time"
 
 	"verif/sim/kernel"
